@@ -274,6 +274,14 @@ type inCtx interface {
 	ServiceMethod() string
 }
 
+// BareEnabled switches on bare messages (set by the traffic worker before any traffic).
+var BareEnabled bool
+
+// Bare says whether the message of a token (and the reply to it) is sent without any metadata.
+func Bare(tok string) bool { return BareEnabled && hash("bare:"+tok)%8 == 0 }
+
+var ourKeys = []string{"Tok", "M1", "Ztail", "Dup", "Dn", "Rtok", "R1"}
+
 // DupMeta says whether the message of a token carries a repeated metadata key (two "Dup" pairs, announced by "Dn").
 func DupMeta(tok string) bool { return hash("dup:"+tok)%4 == 0 }
 
@@ -287,6 +295,20 @@ func check(m *Monitor, kind, phase string, ctx inCtx, arg interface{}, wantMetho
 	if want := Payload(tok); pay != want {
 		m.Report("handler-arg-foreign/"+phase, kind, fmt.Sprintf("token %q: payload (len %d) %.60q is not the payload of that token (len %d) %.60q", tok, len(pay), pay, len(want), want))
 		return tok, false
+	}
+	if Bare(tok) {
+		// sent without metadata: nothing of another message's metadata may show
+		for _, k := range ourKeys {
+			if v := ctx.PeekMeta(k); len(v) > 0 {
+				m.Report("handler-meta-foreign/"+phase, kind, fmt.Sprintf("token %q was sent without metadata, the handler sees %s=%q", tok, k, v))
+				return tok, false
+			}
+		}
+		if sm := ctx.ServiceMethod(); sm != wantMethod {
+			m.Report("handler-method/"+phase, kind, fmt.Sprintf("token %q: service method %q want %q", tok, sm, wantMethod))
+			return tok, false
+		}
+		return tok, true
 	}
 	if mt := string(ctx.PeekMeta("Tok")); mt != tok {
 		m.Report("handler-meta-foreign/"+phase, kind, fmt.Sprintf("argument token %q but metadata Tok=%q", tok, mt))
@@ -353,10 +375,12 @@ func handleCall(kind, route string, ctx erpc.CallCtx, arg interface{}) (interfac
 	if _, ok := check(m, kind, "exit", ctx, arg, route); !ok {
 		return nil, erpc.NewStatus(598, "request changed while being handled", tok)
 	}
-	ctx.SetMeta("Rtok", tok)
-	ctx.SetMeta("R1", MetaVal(tok, 2))
-	if v := TailMeta("R:" + tok); v != "-" {
-		ctx.SetMeta("Ztail", v)
+	if !Bare(tok) {
+		ctx.SetMeta("Rtok", tok)
+		ctx.SetMeta("R1", MetaVal(tok, 2))
+		if v := TailMeta("R:" + tok); v != "-" {
+			ctx.SetMeta("Ztail", v)
+		}
 	}
 	rp := ReplyPayload(tok)
 	switch kind {
